@@ -134,7 +134,9 @@ func newLifecycleChecker(c *fw.Case) *lifecycleChecker {
 	// all five key types can sign: the configuration admits P-521 / ES512 next to the four shipped ones
 	p.KeyAlgorithms = append(p.KeyAlgorithms, "P-521")
 	p.SignatureAlgorithms = append(p.SignatureAlgorithms, "ES512")
-	return &lifecycleChecker{c: c, st: sut.SharedStack(p), ns: "did:sidetree", actual: &protocol.ResolutionModel{}, model: &oracle.State{}, time: 1000}
+	// namespaces of two, three and four segments (a network or an anchor in front of the suffix): the suffix is the last segment
+	ns := []string{"did:sidetree", "did:sidetree:test", "did:orb:uAAA:net"}[c.Idx%3]
+	return &lifecycleChecker{c: c, st: sut.SharedStack(p), ns: ns, actual: &protocol.ResolutionModel{}, model: &oracle.State{}, time: 1000}
 }
 
 // step feeds one request; facts carry what the caller asked for.
